@@ -90,7 +90,7 @@ func NewWorld(spec WorldSpec, seed uint64) (*World, error) {
 		}
 	}
 	simos.Install(w.Disk)
-	w.Badger = &simbadger.Faults{FailUpdateAt: map[uint64]bool{}}
+	w.Badger = &simbadger.Faults{FailUpdateAt: map[uint64]bool{}, FailCommitAt: map[uint64]bool{}}
 	simbadger.Install(w.Badger)
 	simrt.SeedIDs(seed)
 	uuid.SetRand(simrt.IDRand())
